@@ -115,3 +115,6 @@ func init() {
 		return append(append([]interface{}{}, asList(a)...), asList(b)...), nil
 	}}
 }
+
+// RegisterBuiltin adds a reference definition of a built-in function.
+func RegisterBuiltin(name string, f *Func) { builtins[name] = f }
